@@ -36,6 +36,34 @@ Definition judge (c : case) : verdict :=
   | Ok m, ODiffs o => if multiset_eqb m o then VAgree else VDiffer
   end.
 
+(* per-property projections of the observable, so that a check only looks at what its property is about *)
+Inductive proj := PFull | PTotal | PBreaking | PCodes.
+
+Definition proj_diffs (p : proj) (ds : list sdiff) : list sdiff :=
+  match p with
+  | PFull => ds
+  | PTotal => match ds with [] => [] | d :: _ => [mk_diff (d_loc d) NoChangeDetected []] end   (* only: empty or not *)
+  | PBreaking => filter (fun d => compat_eqb (d_compat d) Breaking) ds
+  | PCodes => map (fun d => {| d_loc := d_loc d; d_code := d_code d; d_compat := compat_zero; d_info := [] |}) ds
+  end.
+
+Definition total_norm (ds : list sdiff) : list sdiff :=
+  match ds with [] => [] | _ => [mk_diff {| l_url := []; l_method := []; l_response := 0; l_node := None |} NoChangeDetected []] end.
+
+Definition judge_p (p : proj) (c : case) : verdict :=
+  match analyse model_fuel (c_a c) (c_b c), c_obs c with
+  | Fuel, _ => VFuel
+  | Panic, OPanic => VAgree
+  | Panic, ODiffs _ => VModelPanic
+  | Ok _, OPanic => VImplPanic
+  | Ok m, ODiffs o =>
+      let same := match p with
+                  | PTotal => multiset_eqb (total_norm m) (total_norm o)
+                  | _ => multiset_eqb (proj_diffs p m) (proj_diffs p o)
+                  end in
+      if same then VAgree else VDiffer
+  end.
+
 Definition verdict_eqb (a b : verdict) : bool :=
   match a, b with
   | VAgree, VAgree | VModelPanic, VModelPanic | VImplPanic, VImplPanic | VFuel, VFuel | VDiffer, VDiffer => true
@@ -49,6 +77,14 @@ Fixpoint run_from (i : nat) (cs : list case) : list (nat * verdict) :=
               if verdict_eqb v VAgree then run_from (S i) r else (i, v) :: run_from (S i) r
   end.
 Definition run_cases (cs : list case) : list (nat * verdict) := run_from 0 cs.
+
+Fixpoint run_from_p (p : proj) (i : nat) (cs : list case) : list (nat * verdict) :=
+  match cs with
+  | [] => []
+  | c :: r => let v := judge_p p c in
+              if verdict_eqb v VAgree then run_from_p p (S i) r else (i, v) :: run_from_p p (S i) r
+  end.
+Definition run_cases_p (p : proj) (cs : list case) : list (nat * verdict) := run_from_p p 0 cs.
 
 (* readable output of the model for one case *)
 Fixpoint string_of_str (x : str) : string :=
